@@ -98,6 +98,26 @@ def rangesSpecGo : List Bool → Nat → Nat → List (Nat × Nat)
 def rangesSpec (bounds : List Bool) (len : Nat) : List (Nat × Nat) :=
   if len = 0 then [] else rangesSpecGo bounds 0 0
 
+/-! ### the std sorting contract (assumption) -/
+
+/-- shape of the private `sort_unstable_by(array, limit, cmp)` of arrow-ord/src/sort.rs:
+`sortBy cmp limit xs` -/
+abbrev PartialSorter := {β : Type} → (β → β → Ordering) → Nat → List β → List β
+
+/-- **Assumed contract of `slice::sort_unstable_by` / `select_nth_unstable_by`** (std), as used
+by `sort_unstable_by(array, limit, cmp)` = full sort when `limit == len`, otherwise
+`select_nth_unstable_by(limit - 1)` followed by a sort of the part before: for every total
+preorder `c` and `k ≤ len` the result is a rearrangement whose first `k` elements are sorted
+and are `≤` every later element. -/
+structure SortContract (sortBy : PartialSorter) : Prop where
+  perm : ∀ {β : Type} (c : β → β → Ordering) (k : Nat) (xs : List β),
+    TotalPreCmp c → k ≤ xs.length → (sortBy c k xs).Perm xs
+  sorted : ∀ {β : Type} (c : β → β → Ordering) (k : Nat) (xs : List β),
+    TotalPreCmp c → k ≤ xs.length → ((sortBy c k xs).take k).Pairwise (fun a b => c a b ≠ .gt)
+  le_rest : ∀ {β : Type} (c : β → β → Ordering) (k : Nat) (xs : List β),
+    TotalPreCmp c → k ≤ xs.length →
+    ∀ a ∈ (sortBy c k xs).take k, ∀ b ∈ (sortBy c k xs).drop k, c a b ≠ .gt
+
 /-- comparison kernels -/
 inductive CmpOp | eq | neq | lt | le | gt | ge | distinct | notDistinct
 deriving DecidableEq, Repr
